@@ -272,6 +272,27 @@ def server_pre_open(run):
 
 
 def run_one(scn, sched, props, st, findings, label):
+    """One abort run in an isolated child; folds its statistics and findings into st / findings
+    and returns (sample, summary)."""
+    from harness import isolate
+    r = isolate.call(exec_one, scn, sched, props, label)
+    s1.merge_stats(st, r['st'])
+    findings.extend(r['findings'])
+    return r['sample'], r['summary']
+
+
+def exec_pilot(base):
+    pilot = session.run_session(base, session.default_sched())
+    info = s1.pilot_info(pilot)
+    info['accepts'] = sum(1 for e in pilot.sim.log if e[3] == 'accepted')
+    info['server_pre_open'] = server_pre_open(pilot)
+    session.cleanup(pilot)
+    return info
+
+
+def exec_one(scn, sched, props, label):
+    st = s1.new_stats()
+    findings = []
     parserec.reset()
     run = session.run_session(scn, sched)
     an, aborted = evaluate(run, props)
@@ -300,8 +321,11 @@ def run_one(scn, sched, props, st, findings, label):
               run.server_exc[1][:80] if run.server_exc else None,
               'records_in_log': len(an.records) if an.records is not None else None,
               'log_tail': (run.log_text or '')[-24:]}
+    res = {'st': st, 'findings': findings, 'sample': sample,
+           'summary': {'outcome': run.outcome, 'digest': run.digest,
+                       'decisions': run.sim.decisions}}
     session.cleanup(run)
-    return run, an, sample
+    return res
 
 
 def run_task(task):
@@ -313,11 +337,8 @@ def run_task(task):
     base = gen_base(rng, task.get('nboards'))
     pts = abort_points(base)
     # pilot for stall placement / interrupt points
-    pilot = session.run_session(base, session.default_sched())
-    info = s1.pilot_info(pilot)
-    info['accepts'] = sum(1 for e in pilot.sim.log if e[3] == 'accepted')
-    info['server_pre_open'] = server_pre_open(pilot)
-    session.cleanup(pilot)
+    from harness import isolate
+    info = isolate.call(exec_pilot, base)
     if task['type'] == 's3':
         n = task.get('n', 4)
         for j in range(n):
@@ -338,7 +359,7 @@ def run_task(task):
                 scn = make_abort_scn(rng, base, pt, rng.choice(kinds))
                 if scn is None:
                     continue
-            _, _, sample = run_one(scn, sched, props, st, findings, 's3:' + sched['label'])
+            sample, _ = run_one(scn, sched, props, st, findings, 's3:' + sched['label'])
             if len(samples) < 2:
                 samples.append(sample)
     else:
@@ -354,7 +375,7 @@ def run_task(task):
                 npoints += 1
                 for sched in (session.default_sched(), s1.gen_sched(rng, info)):
                     sched.setdefault('label', 'fifo')
-                    _, _, sample = run_one(scn, sched, props, st, findings, 's3e:' + sched['label'])
+                    sample, _ = run_one(scn, sched, props, st, findings, 's3e:' + sched['label'])
                     if len(samples) < 2:
                         samples.append(sample)
         nint = 0
@@ -374,6 +395,11 @@ def run_task(task):
 
 
 def run_plan(plan, prop):
+    from harness import isolate
+    return isolate.call(exec_plan, plan, prop)
+
+
+def exec_plan(plan, prop):
     parserec.reset()
     run = session.run_session(plan['scenario'], plan['sched'])
     if plan.get('variant') == 'vanish':
@@ -421,7 +447,28 @@ def check_vanish(run, an):
         pass
 
 
+def exec_vanish(scn, sched, props):
+    st = s1.new_stats()
+    findings = []
+    parserec.reset()
+    run = session.run_session(scn, sched)
+    an = so.analyse(run)
+    check_vanish(run, an)
+    s1.add_run_stats(st, run, an, (), 'vanish:' + sched['label'])
+    st['faults']['peer_close'] = st['faults'].get('peer_close', 0) + 1
+    for f in an.findings:
+        if f.prop in props:
+            fr = s1.finding_record(f, scn, sched, run, family='S3')
+            fr['plan']['variant'] = 'vanish'
+            findings.append(fr)
+    sample = {'vanish': scn['abort'], 'outcome': run.outcome,
+              'blocked': run.sim.blocked_final[:5]}
+    session.cleanup(run)
+    return {'st': st, 'findings': findings, 'sample': sample}
+
+
 def run_vanish(task):
+    from harness import isolate
     props = tuple(task['props'])
     rng = random.Random(f'vanish/{task["seed"]}')
     st = s1.new_stats()
@@ -442,19 +489,9 @@ def run_vanish(task):
             rng, {'decisions': 3000, 'steps': 3000, 'bytes': 20000, 'now': 20.0, 'messages': 600,
                   'roles': ['server', 'pt:0', 'pt:1', 'pt:2', 'pt:3'], 'nstable': {}, 'kinds': {}})
         sched.setdefault('label', 'fifo')
-        parserec.reset()
-        run = session.run_session(scn, sched)
-        an = so.analyse(run)
-        check_vanish(run, an)
-        s1.add_run_stats(st, run, an, (), 'vanish:' + sched['label'])
-        st['faults']['peer_close'] = st['faults'].get('peer_close', 0) + 1
-        for f in an.findings:
-            if f.prop in props:
-                fr = s1.finding_record(f, scn, sched, run, family='S3')
-                fr['plan']['variant'] = 'vanish'
-                findings.append(fr)
+        r = isolate.call(exec_vanish, scn, sched, props)
+        s1.merge_stats(st, r['st'])
+        findings.extend(r['findings'])
         if len(samples) < 1:
-            samples.append({'vanish': scn['abort'], 'outcome': run.outcome,
-                            'blocked': run.sim.blocked_final[:5]})
-        session.cleanup(run)
+            samples.append(r['sample'])
     return {'stats': st, 'findings': findings[:10], 'samples': samples, 'nfindings': len(findings)}
